@@ -7,6 +7,7 @@ import RsjProofs.ParserSpans3
 import RsjProofs.ParserRun10
 import RsjProofs.ParserSlice
 import RsjProofs.ParserRun24
+import RsjProofs.ParserNoFault3
 namespace Rsj.Parser
 
 /-! ## The precedence table
@@ -331,6 +332,48 @@ example : ¬ Frag2 (.local_ [] (.ident ⟨"78", .zero⟩ .zero) .zero) := by
   cases h with
   | mk _ hwf _ _ _ => exact hwf.1 rfl
 
+
+/-! ## No fault outcome, fuel sufficiency
+
+The parser model has outcomes that are not `ParseError`s (`Fault`): the transcribed panic sites of
+the Rust code — `Parser::new` on an empty slice, `rem_tokens.next().unwrap()` in `next_token`,
+`assert!(rem_tokens.is_empty())` in `eat_eof`, the `unreachable!()` / `unwrap()` sites of `make_comp`,
+`in super` and `parse_arg` — and the model's own fuel bound (`outOfFuel`; `parse` runs with
+`50 · tokens + 100`).  None of them is reachable on a token list that ends in its only end-of-file
+token (`EofLast`; what the lexer produces: `C15_lexed_tokens_ok` in `RsjProps/C15NoFault.lean`).
+Spans play no role. -/
+
+/-- **C15 parse_never_faults.** For every token list that ends in its only end-of-file token,
+    `Parser::new(tokens).parse_root_expr()` is a tree or a `ParseError::Expected` — never one of the
+    panic sites, and the model's fuel `50 · tokens + 100` always suffices.  (Termination measure of
+    the explicit-stack loop: `RsjProofs/ParserNoFault2.lean`, `nf_exprLoop` — every iteration lowers
+    the weight of stack + state or consumes a token and raises it by at most 33, so
+    `33 + 34 · tokens + 2` iterations suffice at every nesting level; recursive `parse_expr` calls
+    happen only after a token was consumed.) -/
+theorem C15_parse_never_faults {toks : List Token} (h : EofLast toks) :
+    (∃ e, parse toks = .ok e) ∨ (∃ sp ex act, parse toks = .expected sp ex act) :=
+  parse_nf h
+
+/-- … in the form "no `Fault`" (every constructor of `Fault`, `outOfFuel` included) -/
+theorem C15_parse_no_fault {toks : List Token} (h : EofLast toks) (f : Fault) : parse toks ≠ .fault f :=
+  parse_ne_fault h f
+
+/-- `parse_expr` itself: with 50 units of fuel per remaining token it returns a tree or a syntax
+    error and consumes at least one token — at any position of a well-formed token list. -/
+theorem C15_parse_expr_fuel_suffices {toks : List Token} (h : EofLast toks) (F : Nat) (st : PState toks)
+    (hF : 50 * (st.rem.length + 1) ≤ F) :
+    (∃ e st', parseExprF F st = .ok (e, st') ∧ st'.rem.length < st.rem.length) ∨
+      (∃ s, parseExprF F st = .error (.expected s)) :=
+  (nf_parseExprF h F st hF).cases
+
+/-- the hypothesis is necessary: without the end-of-file token `next_token` runs off the end -/
+example : parse [tk0 (sim .Null)] = .fault .noNextToken := by rfl
+/-- … and an end-of-file token that is not last trips the assertion of `eat_eof` -/
+example : parse [tk0 (sim .Null), tk0 .eof, tk0 .eof] = .fault .eofNotLast := by rfl
+/-- non-vacuity: the example text above is `EofLast` -/
+example : EofLast exampleToks :=
+  ⟨exampleToks.dropLast, tk0 .eof, by rfl, rfl, by decide⟩
+
 /-- **C15 binary_left_assoc.** `a op1 b op2 c` (atoms `a b c`, any two of the 19 binary
     operators) groups to the left, `(a op1 b) op2 c`, exactly when `op2` does not bind tighter
     than `op1` — in particular for two operators of the same level — and as `a op1 (b op2 c)`
@@ -446,3 +489,9 @@ open Rsj.Parser in
 #print axioms C15_print_parse
 open Rsj.Parser in
 #print axioms C15_print_full_parse
+open Rsj.Parser in
+#print axioms C15_parse_never_faults
+open Rsj.Parser in
+#print axioms C15_parse_no_fault
+open Rsj.Parser in
+#print axioms C15_parse_expr_fuel_suffices
